@@ -152,13 +152,26 @@ def changes : List Op → Nat
   | .poll _ :: r => changes r
   | .setLimit _ :: r => 1 + changes r
 
-/-- every limit set during the run is positive (the limiter stays limited) and at most `Lmax` -/
+/-- every limit set during the run is at most `Lmax` (0 = "no limit" is allowed) -/
 def LimitsWithin (Lmax : Nat) : List Op → Prop
   | [] => True
   | .poll _ :: r => LimitsWithin Lmax r
-  | .setLimit k :: r => 0 < k ∧ k * bytesPerKb ≤ Lmax ∧ LimitsWithin Lmax r
+  | .setLimit k :: r => k * bytesPerKb ≤ Lmax ∧ LimitsWithin Lmax r
 
 theorem quantum_le_kb : minBucket ≤ bytesPerKb := by decide
+
+/-- well-formed limiter object at clock reading `now`, limits within `Lmax` -/
+def Limiter.WF (lim : Limiter) (now Lmax : Nat) : Prop :=
+  match lim with
+  | .limited l => l.WF now ∧ l.L ≤ Lmax
+  | .unlimited _ last => last ≤ now
+
+/-- the accounting potential of a limiter object: an unlimited limiter carries the bucket and refill
+clock of the limiter it replaced (it never has a "full" bucket of its own) -/
+def phiL (Lmax : Nat) (lim : Limiter) (now G : Nat) : Nat :=
+  match lim with
+  | .limited l => phi Lmax l now G
+  | .unlimited b last => tps * G + min (tps * Lmax) (tps * b + Lmax * (now - last))
 
 theorem setLimit_step (Lmax : Nat) (l : Lim) (now G k : Nat) (hwf : l.WF now) (hk : 0 < k)
     (hkL : k * bytesPerKb ≤ Lmax) :
@@ -185,45 +198,120 @@ theorem setLimit_step (Lmax : Nat) (l : Lim) (now G k : Nat) (hwf : l.WF now) (h
     generalize minBucket = q at *
     split <;> split <;> omega
 
-/-- The accounting invariant over any run that keeps the limiter limited. -/
-theorem run_phi (Lmax : Nat) : ∀ (ops : List Op) (l : Lim) (now G : Nat),
-    l.WF now → l.L ≤ Lmax → LimitsWithin Lmax ops →
-    ∃ l', (run { lim := .limited l, now := now, granted := G } ops).lim = .limited l' ∧
-      l'.WF (run { lim := .limited l, now := now, granted := G } ops).now ∧ l'.L ≤ Lmax ∧
-      (run { lim := .limited l, now := now, granted := G } ops).now = now + elapsed ops ∧
-      phi Lmax l' (now + elapsed ops) (run { lim := .limited l, now := now, granted := G } ops).granted
-        ≤ phi Lmax l now G + Lmax * elapsed ops + 1024 * minBucket * changes ops
-  | [], l, now, G, hwf, hL, _ => ⟨l, rfl, hwf, hL, rfl, by simp [run, elapsed, changes]⟩
-  | .poll dt :: r, l, now, G, hwf, hL, hops => by
-    obtain ⟨h1, h2, _, _, h5⟩ := poll_step Lmax l now dt G hwf hL
-    have ih := run_phi Lmax r (poll l (now + dt)).1 (now + dt) (G + (poll l (now + dt)).2) h1 (h2 ▸ hL) hops
-    obtain ⟨l', e1, e2, e3, e4, e5⟩ := ih
-    have hrun : run { lim := .limited l, now := now, granted := G } (.poll dt :: r)
-        = run { lim := .limited (poll l (now + dt)).1, now := now + dt, granted := G + (poll l (now + dt)).2 } r := by
-      simp [run, step, Limiter.poll]
-    rw [hrun]
-    refine ⟨l', e1, e2, e3, ?_, ?_⟩
-    · rw [e4]; simp [elapsed]; omega
-    · have : now + elapsed (.poll dt :: r) = now + dt + elapsed r := by simp [elapsed]; omega
-      rw [this]
-      have hm : Lmax * elapsed (.poll dt :: r) = Lmax * dt + Lmax * elapsed r := by
-        simp [elapsed, Nat.mul_add]
-      rw [hm]
-      simp only [changes]
-      omega
-  | .setLimit k :: r, l, now, G, hwf, hL, hops => by
-    obtain ⟨hk, hkL, hr⟩ := hops
-    obtain ⟨l1, s1, s2, s3, s4⟩ := setLimit_step Lmax l now G k hwf hk hkL
-    obtain ⟨l', e1, e2, e3, e4, e5⟩ := run_phi Lmax r l1 now G s2 s3 hr
-    have hrun : run { lim := .limited l, now := now, granted := G } (.setLimit k :: r)
-        = run { lim := .limited l1, now := now, granted := G } r := by
-      simp [run, step, s1]
-    rw [hrun]
-    refine ⟨l', e1, e2, e3, ?_, ?_⟩
-    · rw [e4]; simp [elapsed]
-    · simp only [elapsed, changes]
-      rw [Nat.mul_add, Nat.mul_one]
-      omega
+/-- a limit set on an unlimited limiter: the bucket and refill clock it kept are taken over -/
+theorem setLimit_step_unlimited (Lmax : Nat) (b last now G k : Nat) (hl : last ≤ now) (hk : 0 < k)
+    (hkL : k * bytesPerKb ≤ Lmax) :
+    ∃ l', setLimit (.unlimited b last) k = .limited l' ∧ l'.WF now ∧ l'.L ≤ Lmax ∧
+      phi Lmax l' now G ≤ phiL Lmax (.unlimited b last) now G + 1024 * minBucket := by
+  have hk0 : ¬ k = 0 := by omega
+  have hkb : bytesPerKb ≤ k * bytesPerKb := Nat.le_mul_of_pos_left _ hk
+  have hqk := quantum_le_kb
+  unfold setLimit addTokens
+  simp only [hk0, if_false, Limiter.bucket, Limiter.last, Nat.zero_add]
+  generalize k * bytesPerKb = L' at *
+  by_cases hgt : b > L'
+  · simp only [hgt, if_true]
+    refine ⟨_, rfl, ⟨Nat.le_refl _, hl, by dsimp only; omega⟩, hkL, ?_⟩
+    unfold phiL phi; dsimp only; rw [tps_eq]
+    generalize Lmax * (now - last) = Y
+    generalize minBucket = q at *
+    split <;> omega
+  · simp only [hgt, if_false]
+    refine ⟨_, rfl, ⟨by dsimp only; omega, hl, by dsimp only; omega⟩, hkL, ?_⟩
+    unfold phiL phi; dsimp only; rw [tps_eq]
+    generalize Lmax * (now - last) = Y
+    generalize minBucket = q at *
+    split <;> omega
+
+/-- one operation of the run keeps the limiter well formed and raises the potential by at most the
+credit of the time that passed, plus one quantum per limit change -/
+theorem step_phi (Lmax : Nat) (lim : Limiter) (now G : Nat) (op : Op) (hwf : lim.WF now Lmax)
+    (hop : LimitsWithin Lmax [op]) :
+    let s' := (step { lim := lim, now := now, granted := G } op).1
+    s'.lim.WF s'.now Lmax ∧ s'.now = now + elapsed [op] ∧
+      phiL Lmax s'.lim s'.now s'.granted
+        ≤ phiL Lmax lim now G + Lmax * elapsed [op] + 1024 * minBucket * changes [op] := by
+  cases op with
+  | poll dt =>
+    cases lim with
+    | limited l =>
+      obtain ⟨h1, h2, _, _, h5⟩ := poll_step Lmax l now dt G hwf.1 hwf.2
+      simp only [step, Limiter.poll, elapsed, changes, Nat.add_zero, Nat.mul_zero]
+      exact ⟨⟨h1, h2 ▸ hwf.2⟩, trivial, h5⟩
+    | unlimited b last =>
+      have hl : last ≤ now := hwf
+      have htime : Lmax * (now + dt - last) = Lmax * (now - last) + Lmax * dt := by
+        rw [← Nat.mul_add]; congr 1; omega
+      simp only [step, Limiter.poll, elapsed, changes, Nat.add_zero, Nat.mul_zero]
+      refine ⟨?_, trivial, ?_⟩
+      · show last ≤ now + dt; omega
+      · unfold phiL; dsimp only; rw [htime]; omega
+  | setLimit k =>
+    have hkL : k * bytesPerKb ≤ Lmax := hop.1
+    simp only [step, elapsed, changes, Nat.add_zero, Nat.mul_zero, Nat.mul_one]
+    by_cases hk : k = 0
+    · subst hk
+      cases lim with
+      | limited l =>
+        have hl : l.last ≤ now := hwf.1.2.1
+        refine ⟨?_, trivial, ?_⟩
+        · simp only [setLimit, if_true, Limiter.last]; exact hl
+        · simp only [setLimit, if_true, Limiter.bucket, Limiter.last]
+          unfold phiL phi; dsimp only; omega
+      | unlimited b last =>
+        refine ⟨?_, trivial, ?_⟩
+        · simp only [setLimit, if_true, Limiter.last]; exact hwf
+        · simp only [setLimit, if_true, Limiter.bucket, Limiter.last]; omega
+    · have hk' : 0 < k := by omega
+      cases lim with
+      | limited l =>
+        obtain ⟨l1, s1, s2, s3, s4⟩ := setLimit_step Lmax l now G k hwf.1 hk' hkL
+        rw [s1]
+        exact ⟨⟨s2, s3⟩, trivial, s4⟩
+      | unlimited b last =>
+        obtain ⟨l1, s1, s2, s3, s4⟩ := setLimit_step_unlimited Lmax b last now G k hwf hk' hkL
+        rw [s1]
+        exact ⟨⟨s2, s3⟩, trivial, s4⟩
+
+theorem elapsed_cons (op : Op) (r : List Op) : elapsed (op :: r) = elapsed [op] + elapsed r := by
+  cases op <;> simp [elapsed]
+
+theorem changes_cons (op : Op) (r : List Op) : changes (op :: r) = changes [op] + changes r := by
+  cases op <;> simp [changes]
+
+theorem limitsWithin_cons (Lmax : Nat) (op : Op) (r : List Op) :
+    LimitsWithin Lmax (op :: r) ↔ LimitsWithin Lmax [op] ∧ LimitsWithin Lmax r := by
+  cases op <;> simp [LimitsWithin]
+
+/-- The accounting invariant over any run: polls, limit changes, periods without a limit. -/
+theorem run_phi (Lmax : Nat) : ∀ (ops : List Op) (lim : Limiter) (now G : Nat),
+    lim.WF now Lmax → LimitsWithin Lmax ops →
+    (run { lim := lim, now := now, granted := G } ops).lim.WF (now + elapsed ops) Lmax ∧
+      (run { lim := lim, now := now, granted := G } ops).now = now + elapsed ops ∧
+      phiL Lmax (run { lim := lim, now := now, granted := G } ops).lim (now + elapsed ops)
+          (run { lim := lim, now := now, granted := G } ops).granted
+        ≤ phiL Lmax lim now G + Lmax * elapsed ops + 1024 * minBucket * changes ops
+  | [], lim, now, G, hwf, _ => by simpa [run, elapsed, changes] using hwf
+  | op :: r, lim, now, G, hwf, hops => by
+    rw [limitsWithin_cons] at hops
+    have h := step_phi Lmax lim now G op hwf hops.1
+    simp only at h
+    generalize hs : (step { lim := lim, now := now, granted := G } op).1 = s1 at h
+    obtain ⟨lim1, now1, G1⟩ := s1
+    obtain ⟨h1, h2, h3⟩ := h
+    dsimp only at h1 h2 h3
+    subst h2
+    have hrun : run { lim := lim, now := now, granted := G } (op :: r)
+        = run { lim := lim1, now := now + elapsed [op], granted := G1 } r := by
+      simp [run, hs]
+    obtain ⟨i1, i2, i3⟩ := run_phi Lmax r lim1 (now + elapsed [op]) G1 h1 hops.2
+    have he : elapsed (op :: r) = elapsed [op] + elapsed r := elapsed_cons op r
+    have hc : changes (op :: r) = changes [op] + changes r := changes_cons op r
+    have ha : now + (elapsed [op] + elapsed r) = now + elapsed [op] + elapsed r := by omega
+    rw [hrun, he, hc, ha]
+    refine ⟨i1, i2, ?_⟩
+    rw [Nat.mul_add, Nat.mul_add]
+    omega
 
 theorem phi_ge (Lmax : Nat) (l : Lim) (now G : Nat) : 1024 * G ≤ phi Lmax l now G := by
   unfold phi; rw [tps_eq]; omega
@@ -231,6 +319,17 @@ theorem phi_ge (Lmax : Nat) (l : Lim) (now G : Nat) : 1024 * G ≤ phi Lmax l no
 theorem phi_le (Lmax : Nat) (l : Lim) (now G : Nat) :
     phi Lmax l now G ≤ 1024 * G + 1024 * Lmax + 1024 * minBucket := by
   unfold phi; rw [tps_eq]; split <;> omega
+
+theorem phiL_ge (Lmax : Nat) (lim : Limiter) (now G : Nat) : 1024 * G ≤ phiL Lmax lim now G := by
+  cases lim with
+  | limited l => exact phi_ge Lmax l now G
+  | unlimited b last => unfold phiL; dsimp only; rw [tps_eq]; omega
+
+theorem phiL_le (Lmax : Nat) (lim : Limiter) (now G : Nat) :
+    phiL Lmax lim now G ≤ 1024 * G + 1024 * Lmax + 1024 * minBucket := by
+  cases lim with
+  | limited l => exact phi_le Lmax l now G
+  | unlimited b last => unfold phiL; dsimp only; rw [tps_eq]; omega
 
 theorem phi_le_notfull (Lmax : Nat) (l : Lim) (now G : Nat) (h : l.bucket < l.L) :
     phi Lmax l now G ≤ 1024 * G + 1024 * Lmax := by
